@@ -671,7 +671,7 @@ func netScenarios(e *enc, r *vlib.Rand) []netScen {
 		}
 		return f
 	}
-	add := func(k int) { out = append(out, netScen{cut: k, frag: fragSeed(), end: byte(r.Intn(2))}) }
+	add := func(k int) { out = append(out, netScen{cut: k, frag: fragSeed(), end: byte(r.Intn(3))}) }
 	if n <= netCuts {
 		for k := 0; k < n; k++ {
 			add(k)
@@ -694,7 +694,7 @@ func netScenarios(e *enc, r *vlib.Rand) []netScen {
 		}
 	}
 	// the complete encoding, fragmented, both endings
-	out = append(out, netScen{cut: n, frag: fragSeed(), end: netEndStall}, netScen{cut: n, frag: fragSeed(), end: netEndClose})
+	out = append(out, netScen{cut: n, frag: fragSeed(), end: netEndStall}, netScen{cut: n, frag: fragSeed(), end: netEndClose}, netScen{cut: n, frag: fragSeed(), end: netEndCloseWithData})
 	return out
 }
 
@@ -764,6 +764,8 @@ func netPass(id string, e *enc, r *vlib.Rand) {
 			c.Count("net_prefix_panicked", 1)
 			if sc.end == netEndClose {
 				c.Count("net_prefix_then_close", 1)
+			} else if sc.end == netEndCloseWithData {
+				c.Count("net_prefix_then_eof_with_data", 1)
 			} else {
 				c.Count("net_prefix_then_deadline", 1)
 			}
